@@ -43,6 +43,8 @@ SortedNames(S) ==
 RECURSIVE JoinStr(_)
 JoinStr(ps) == IF ps = <<>> THEN "" ELSE IF Len(ps) = 1 THEN ps[1] ELSE ps[1] \o "/" \o JoinStr(Tail(ps))
 PathStr(abs, ps) == IF abs THEN "/" \o JoinStr(ps) ELSE IF ps = <<>> THEN "." ELSE JoinStr(ps)
+\* printing below a chroot-like wrapper: the first k components (the base path) are not shown
+PathStrK(abs, ps, k) == PathStr(abs, IF abs THEN SubSeq(ps, k + 1, Len(ps)) ELSE ps)
 
 (***************************************************************************)
 (* filepath.Glob: segment-wise matching against the listings of the        *)
@@ -52,8 +54,8 @@ PathStr(abs, ps) == IF abs THEN "/" \o JoinStr(ps) ELSE IF ps = <<>> THEN "." EL
 (***************************************************************************)
 HasMeta(segs) == \E i \in DOMAIN segs : IsMetaSeg(segs[i])
 
-RECURSIVE GlobR(_, _, _, _, _)
-GlobR(st, abs, prefix, segs, fuel) ==
+RECURSIVE GlobR(_, _, _, _, _, _)
+GlobR(st, abs, prefix, segs, fuel, k) ==
     LET seg == Head(segs)
         here == Res(st, [abs |-> abs, parts |-> IF prefix = <<>> /\ ~abs THEN <<".">> ELSE prefix], TRUE)
         names == IF here.err = "ok" /\ IsDir(st, here.id) /\ May(st, here.id, 4)
@@ -62,22 +64,23 @@ GlobR(st, abs, prefix, segs, fuel) ==
         Each(ns) ==
             IF ns = <<>> THEN <<>>
             ELSE LET p == Append(prefix, Head(ns)) IN
-                 (IF Len(segs) = 1 THEN <<PathStr(abs, p)>>
-                  ELSE IF fuel = 0 THEN <<>> ELSE GlobR(st, abs, p, Tail(segs), fuel - 1)) \o Each(Tail(ns)) IN
+                 (IF Len(segs) = 1 THEN <<PathStrK(abs, p, k)>>
+                  ELSE IF fuel = 0 THEN <<>> ELSE GlobR(st, abs, p, Tail(segs), fuel - 1, k)) \o Each(Tail(ns)) IN
     IF ~IsMetaSeg(seg) /\ Len(segs) > 1 THEN
         \* a literal directory segment is used as a path, not matched against a listing
-        GlobR(st, abs, Append(prefix, seg), Tail(segs), fuel)
+        GlobR(st, abs, Append(prefix, seg), Tail(segs), fuel, k)
     ELSE IF ~IsMetaSeg(seg) THEN
         \* the last segment is literal but something before it was not: matched against the listing like any other
         Each(names)
     ELSE Each(names)
 
-Glob(st, c) ==
+GlobK(st, c, k) ==
     LET segs == c.p.parts IN
     IF ~HasMeta(segs) THEN
         LET r == Res(st, c.p, FALSE) IN
-        Ret([R0 EXCEPT !.names = IF r.err = "ok" /\ r.id # 0 THEN <<PathStr(c.p.abs, segs)>> ELSE <<>>], st)
-    ELSE LET ms == GlobR(st, c.p.abs, <<>>, segs, 6) IN Ret([R0 EXCEPT !.names = ms, !.n = Len(ms)], st)
+        Ret([R0 EXCEPT !.names = IF r.err = "ok" /\ r.id # 0 THEN <<PathStrK(c.p.abs, segs, k)>> ELSE <<>>], st)
+    ELSE LET ms == GlobR(st, c.p.abs, <<>>, segs, 6, k) IN Ret([R0 EXCEPT !.names = ms, !.n = Len(ms)], st)
+Glob(st, c) == GlobK(st, c, 0)
 
 (***************************************************************************)
 (* filepath.WalkDir with a callback that returns SkipDir, SkipAll or an    *)
@@ -88,9 +91,9 @@ Glob(st, c) ==
 WAction(c) == IF c.flag = <<>> THEN "none" ELSE c.flag[1]
 
 \* walk state: [seen : sequence of visited paths, stop : "" | "skipdir" | "skipall" | "err"]
-RECURSIVE WalkR(_, _, _, _, _, _)
-WalkR(st, c, id, path, acc, fuel) ==
-    LET seen1 == Append(acc.seen, PathStr(TRUE, path))
+RECURSIVE WalkR(_, _, _, _, _, _, _)
+WalkR(st, c, id, path, acc, fuel, k) ==
+    LET seen1 == Append(acc.seen, PathStrK(TRUE, path, k))
         hit == c.n # 0 /\ Len(seen1) = c.n
         act == IF hit THEN WAction(c) ELSE "none"
         isdir == IsDir(st, id) IN
@@ -103,19 +106,21 @@ WalkR(st, c, id, path, acc, fuel) ==
     LET RECURSIVE Kids(_, _)
         Kids(ns, a) ==
             IF ns = <<>> THEN a
-            ELSE LET r == WalkR(st, c, st.ino[id].ent[Head(ns)], Append(path, Head(ns)), a, fuel - 1) IN
+            ELSE LET r == WalkR(st, c, st.ino[id].ent[Head(ns)], Append(path, Head(ns)), a, fuel - 1, k) IN
                  IF r.stop = "skipdir" THEN [seen |-> r.seen, stop |-> ""]      \* skip the remaining siblings
                  ELSE IF r.stop # "" THEN r
                  ELSE Kids(Tail(ns), r) IN
     Kids(SortedNames(DOMAIN st.ino[id].ent), [seen |-> seen1, stop |-> ""])
 
-WalkDir(st, c) ==
+WalkDirK(st, c, k) ==
     LET r == Res(st, c.p, FALSE) IN
     IF r.err # "ok" \/ r.id = 0 THEN
         \* the callback is told about the failing Lstat of the root and returns that error
-        Ret([R0 EXCEPT !.err = IF r.err # "ok" THEN r.err ELSE "ENOENT", !.names = <<PathStr(c.p.abs, c.p.parts)>>], st)
-    ELSE LET w == WalkR(st, c, r.id, c.p.parts, [seen |-> <<>>, stop |-> ""], 8) IN
+        Ret([R0 EXCEPT !.err = IF r.err # "ok" THEN r.err ELSE "ENOENT", !.names = <<PathStrK(c.p.abs, c.p.parts, k)>>], st)
+    ELSE LET w == WalkR(st, c, r.id, c.p.parts, [seen |-> <<>>, stop |-> ""], 8, k) IN
          Ret([R0 EXCEPT !.err = IF w.stop = "err" THEN "ECALLBACK" ELSE "ok", !.names = w.seen, !.n = Len(w.seen)], st)
+
+WalkDir(st, c) == WalkDirK(st, c, 0)
 
 (***************************************************************************)
 (* Exists, DirExists, IsDir, IsEmpty answer what Stat and ReadDir imply.   *)
